@@ -1038,15 +1038,44 @@ Proof.
   cbn [map length repeat]. rewrite IH. f_equal.
 Qed.
 
-(* C05, character columns (after the D13 repair): missing, equal, different,
-   NUL, 0xFF, short (space padded) and long (truncated) entries, any number of
-   subsets, 0..63 octets. *)
-Theorem col_roundtrip_str nb ae vals o t :
-  col_dom_str nb ae vals = true ->
-  exists e, enc_col_str nb ae vals o = Ok (o ++ e) /\
-            dec_col_str nb (length vals) (e ++ t) = Ok (str_view nb vals, t).
+(* both decoders (repaired and original) are instances of one reader that
+   differs only in WHEN an all-zero base is blanked *)
+Definition dec_col_str_gen (blank : N -> list byte -> bool) (nb : Z) (n : nat) (r : reader)
+  : result (list (list byte) * reader) :=
+  let* (mn, r1) := read_bytes nb r in
+  let* (nd, r2) := read_uint NBITS_FOR_NBITS_DIFF r1 in
+  let mn' := if blank nd mn then [] else mn in
+  if (nd =? 0)%N then Ok (repeat mn' n, r2)
+  else dec_incs_str (Z.of_N nd) mn' n r2.
+
+Lemma dec_col_str_is_gen nb n r :
+  dec_col_str nb n r = dec_col_str_gen (fun nd mn => negb (nd =? 0)%N && str_min_is_blank nb mn) nb n r.
+Proof. reflexivity. Qed.
+Lemma dec_col_str_orig_is_gen nb n r :
+  dec_col_str_orig nb n r = dec_col_str_gen (fun _ mn => str_min_is_blank nb mn) nb n r.
+Proof. reflexivity. Qed.
+
+Lemma str_blank_zero_base nb :
+  (0 < nb)%Z -> str_min_is_blank nb (pad_bytes (bytes_rep 0%N nb) (Z.to_nat nb)) = true.
 Proof.
-  unfold col_dom_str. intros H.
+  intros Hnb. unfold str_min_is_blank. rewrite pad_bytes_rep by lia.
+  assert (Eor : py_or_bytes (bytes_rep 0%N nb) (bytes_rep 255%N nb) = bytes_rep 0%N nb).
+  { unfold bytes_rep. destruct (Z.to_nat nb) eqn:En; [lia|]. reflexivity. }
+  rewrite Eor. apply is_infix_refl.
+Qed.
+
+Theorem col_roundtrip_str_gen (blank : N -> list byte -> bool) nb ae vals o t :
+  col_dom_str nb ae vals = true ->
+  (* an all-equal column: its base is kept as it is *)
+  (ae = true -> forall v0, hd_error vals = Some v0 ->
+     let b := pad_bytes (str_or_missing nb v0) (Z.to_nat nb) in
+     (if blank 0%N b then @nil byte else b) = b) ->
+  (* increments: the zero base is blanked *)
+  ((0 < nb)%Z -> blank (Z.to_N nb) (pad_bytes (bytes_rep 0%N nb) (Z.to_nat nb)) = true) ->
+  exists e, enc_col_str nb ae vals o = Ok (o ++ e) /\
+            dec_col_str_gen blank nb (length vals) (e ++ t) = Ok (str_view nb vals, t).
+Proof.
+  unfold col_dom_str. intros H Hkeep Hblank.
   apply andb_true_iff in H as [H Hok]. apply andb_true_iff in H as [H Hflag].
   apply andb_true_iff in H as [Hn0 Hn63].
   destruct vals as [|v0 vals']; [discriminate|].
@@ -1066,10 +1095,11 @@ Proof.
       rewrite write_bytes_ok by lia. cbn [bind].
       unfold NBITS_FOR_NBITS_DIFF. rewrite write_uint_ok by (cbn; lia). cbn [bind].
       rewrite <- app_assoc. reflexivity.
-    + unfold dec_col_str. rewrite <- app_assoc.
+    + unfold dec_col_str_gen. rewrite <- app_assoc.
       rewrite read_bytes_pad by (try apply str_or_missing_ok; try assumption; lia). cbn [bind].
       change (zeros 6) with (to_bits 6 (Z.to_N 0)). rewrite to_bits6_width by lia. cbn [bind].
-      cbn [N.eqb Z.to_N negb andb].
+      cbn [N.eqb Z.to_N].
+      specialize (Hkeep eq_refl v0 eq_refl). cbn zeta in Hkeep. fold mv in Hkeep. rewrite Hkeep.
       rewrite Hflag at 2. rewrite str_view_repeat. reflexivity.
   - (* different: zero base, full-width increments *)
     destruct (Z.eq_dec nb 0) as [E0|E0].
@@ -1078,11 +1108,13 @@ Proof.
         rewrite write_bytes_ok by lia. cbn [bind].
         unfold NBITS_FOR_NBITS_DIFF. rewrite write_uint_ok by (cbn; lia). cbn [bind].
         cbn. rewrite app_nil_r. reflexivity.
-      * unfold dec_col_str.
+      * unfold dec_col_str_gen.
         change (zeros 6 ++ t) with (bits_of_bytes (pad_bytes [] (Z.to_nat 0)) ++ zeros 6 ++ t).
         rewrite read_bytes_pad by (try reflexivity; lia). cbn [bind].
         change (zeros 6) with (to_bits 6 (Z.to_N 0)). rewrite to_bits6_width by lia. cbn [bind].
-        cbn [N.eqb Z.to_N negb andb]. rewrite str_view_width0. reflexivity.
+        cbn [N.eqb Z.to_N]. rewrite str_view_width0.
+        change (pad_bytes [] (Z.to_nat 0)) with (@nil byte).
+        destruct (blank 0%N []); reflexivity.
     + destruct (str_incs_roundtrip nb vals
                   (o ++ bits_of_bytes (bytes_rep 0%N nb) ++ to_bits 6 (Z.to_N nb)) t) as (e & He & Hd);
         [lia|exact Hok|].
@@ -1092,17 +1124,100 @@ Proof.
         unfold NBITS_FOR_NBITS_DIFF. rewrite write_uint_ok by (change (2 ^ 6)%Z with 64%Z; lia).
         cbn [bind]. destruct (Z.eqb_spec nb 0); [lia|].
         fold vals. rewrite <- !app_assoc in *. exact He.
-      * unfold dec_col_str. rewrite <- !app_assoc.
+      * unfold dec_col_str_gen. rewrite <- !app_assoc.
         rewrite <- (pad_bytes_rep 0%N nb) at 1 by lia.
         rewrite read_bytes_pad by (try (apply is_byte_rep; reflexivity); lia). cbn [bind].
         rewrite to_bits6_width by lia. cbn [bind].
-        destruct (N.eqb_spec (Z.to_N nb) 0); [lia|]. cbn [negb andb].
-        assert (Hblank : str_min_is_blank nb (pad_bytes (bytes_rep 0%N nb) (Z.to_nat nb)) = true).
-        { unfold str_min_is_blank. rewrite pad_bytes_rep by lia.
-          assert (Eor : py_or_bytes (bytes_rep 0%N nb) (bytes_rep 255%N nb) = bytes_rep 0%N nb).
-          { unfold bytes_rep. destruct (Z.to_nat nb) eqn:En; [lia|]. reflexivity. }
-          rewrite Eor. apply is_infix_refl. }
-        rewrite Hblank. rewrite Z2N.id by lia. exact Hd.
+        destruct (N.eqb_spec (Z.to_N nb) 0); [lia|].
+        rewrite Hblank by lia. rewrite Z2N.id by lia. exact Hd.
+Qed.
+
+(* C05, character columns (after the D13 repair): missing, equal, different,
+   NUL, 0xFF, short (space padded) and long (truncated) entries, any number of
+   subsets, 0..63 octets. *)
+Theorem col_roundtrip_str nb ae vals o t :
+  col_dom_str nb ae vals = true ->
+  exists e, enc_col_str nb ae vals o = Ok (o ++ e) /\
+            dec_col_str nb (length vals) (e ++ t) = Ok (str_view nb vals, t).
+Proof.
+  intros Hdom.
+  destruct (col_roundtrip_str_gen (fun nd mn => negb (nd =? 0)%N && str_min_is_blank nb mn)
+              nb ae vals o t Hdom) as (e & He & Hd).
+  - intros _ v0 _. reflexivity.
+  - intros Hnb. destruct (N.eqb_spec (Z.to_N nb) 0); [lia|]. cbn [negb andb].
+    apply str_blank_zero_base, Hnb.
+  - exists e. split; [exact He|]. rewrite dec_col_str_is_gen. exact Hd.
+Qed.
+
+(* Python's [x in s] for two byte strings of the same length is equality *)
+Lemma is_prefix_length x : forall s, bytes_is_prefix x s = true -> (length x <= length s)%nat.
+Proof.
+  induction x as [|a x IH]; intros [|b s]; cbn; intros H; try lia; try discriminate.
+  apply andb_true_iff in H as [_ H]. apply IH in H. lia.
+Qed.
+
+Lemma is_infix_length x : forall s, bytes_is_infix x s = true -> (length x <= length s)%nat.
+Proof.
+  induction s as [|b s IH]; cbn [bytes_is_infix]; intros H.
+  - rewrite orb_false_r in H. apply is_prefix_length in H. exact H.
+  - apply orb_true_iff in H as [H|H]; [apply is_prefix_length, H|].
+    apply IH in H. cbn [length]. lia.
+Qed.
+
+Lemma is_prefix_same_length x : forall s,
+  length x = length s -> bytes_is_prefix x s = true -> x = s.
+Proof.
+  induction x as [|a x IH]; intros [|b s] Hl; cbn; intros H; try discriminate; [reflexivity|].
+  apply andb_true_iff in H as [H1 H2]. cbn in Hl. f_equal; [lia|apply IH; [lia|exact H2]].
+Qed.
+
+Lemma is_infix_same_length x s :
+  length x = length s -> bytes_is_infix x s = true -> x = s.
+Proof.
+  intros Hl H. destruct s as [|b s].
+  - destruct x; [reflexivity|discriminate].
+  - cbn [bytes_is_infix] in H. apply orb_true_iff in H as [H|H].
+    + apply is_prefix_same_length; assumption.
+    + apply is_infix_length in H. cbn [length] in Hl. lia.
+Qed.
+
+(* the decoder as it was BEFORE the repair round-trips exactly the columns
+   outside the guard: everything except all-equal columns of NUL strings *)
+Theorem col_roundtrip_str_orig_guarded nb ae vals o t :
+  col_dom_str nb ae vals = true ->
+  is_equal_nul_col nb ae vals = false ->
+  exists e, enc_col_str nb ae vals o = Ok (o ++ e) /\
+            dec_col_str_orig nb (length vals) (e ++ t) = Ok (str_view nb vals, t).
+Proof.
+  intros Hdom Hguard.
+  destruct (col_roundtrip_str_gen (fun _ mn => str_min_is_blank nb mn) nb ae vals o t Hdom)
+    as (e & He & Hd).
+  - intros -> v0 Hhd. cbn zeta.
+    set (b := pad_bytes (str_or_missing nb v0) (Z.to_nat nb)).
+    destruct (str_min_is_blank nb b) eqn:Hb; [|reflexivity].
+    (* blanked: then b is the zero string, or empty *)
+    unfold col_dom_str in Hdom. apply andb_true_iff in Hdom as [Hd0 _].
+    apply andb_true_iff in Hd0 as [Hd0 _]. apply andb_true_iff in Hd0 as [Hn0 _].
+    destruct (Z.eq_dec nb 0) as [E0|E0].
+    { subst nb. unfold b. reflexivity. }
+    exfalso. unfold str_min_is_blank in Hb.
+    assert (Eor : py_or_bytes (bytes_rep 0%N nb) (bytes_rep 255%N nb) = bytes_rep 0%N nb).
+    { unfold bytes_rep. destruct (Z.to_nat nb) eqn:En; [lia|]. reflexivity. }
+    rewrite Eor in Hb.
+    apply is_infix_same_length in Hb;
+      [|unfold b, bytes_rep; rewrite length_pad_bytes, repeat_length; reflexivity].
+    destruct vals as [|v vals']; [discriminate|]. cbn in Hhd. injection Hhd as ->.
+    destruct v0 as [s0|].
+    + cbn [is_equal_nul_col andb] in Hguard.
+      destruct (Z.ltb_spec 0 nb); [|lia]. cbn [andb] in Hguard.
+      unfold b in Hb. cbn [str_or_missing] in Hb. rewrite Hb in Hguard.
+      assert (forallb (fun x : N => (x =? 0)%N) (bytes_rep 0%N nb) = true).
+      { apply forallb_forall. intros x Hx. apply repeat_spec in Hx. subst x. reflexivity. }
+      congruence.
+    + unfold b in Hb. cbn [str_or_missing] in Hb. rewrite pad_bytes_rep in Hb by lia.
+      unfold bytes_rep in Hb. destruct (Z.to_nat nb) eqn:En; [lia|]. cbn in Hb. discriminate.
+  - intros Hnb. apply str_blank_zero_base, Hnb.
+  - exists e. split; [exact He|]. rewrite dec_col_str_orig_is_gen. exact Hd.
 Qed.
 
 (* the uncompressed form of a character column *)
@@ -1272,3 +1387,112 @@ Example allones_value_with_missing_is_refused :
   (let* o := enc_col_num 3 false [None; Some 7]%Z [] in dec_col_num 3 2 o) = Err EAssert /\
   (let* o := enc_fields_num 3 [None; Some 7]%Z [] in dec_fields_num 3 2 o) = Ok ([None; None], []).
 Proof. split; [|split]; vm_compute; reflexivity. Qed.
+
+(* ========================================================================== *)
+(* 14. reading a column is independent of what follows it                        *)
+(*     (base of the whole-message suffix-independence statements)                *)
+(* ========================================================================== *)
+
+Lemma read_uon_suffix w r v r' t :
+  read_uint_or_none w r = Ok (v, r') -> read_uint_or_none w (r ++ t) = Ok (v, r' ++ t).
+Proof.
+  unfold read_uint_or_none.
+  destruct (read_uint w r) as [[x r1]|e] eqn:E; cbn [bind]; [|discriminate].
+  rewrite (read_uint_suffix _ _ _ _ t E). cbn [bind].
+  destruct (1 <? w)%Z; [|intros H; injection H as <- <-; reflexivity].
+  destruct (64 <? w)%Z; [discriminate|].
+  destruct (x =? missing_value (Z.to_N w))%N; intros H; injection H as <- <-; reflexivity.
+Qed.
+
+Lemma read_bytes_suffix n r v r' t :
+  read_bytes n r = Ok (v, r') -> read_bytes n (r ++ t) = Ok (v, r' ++ t).
+Proof.
+  unfold read_bytes. destruct (n <? 0)%Z; [discriminate|].
+  destruct (take_bits _ r) as [[b r1]|e] eqn:E; cbn [bind]; [|discriminate].
+  intros H; injection H as <- <-. rewrite (take_bits_suffix _ _ _ _ t E). reflexivity.
+Qed.
+
+Lemma dec_incs_num_suffix wd mn t : forall n r vs r',
+  dec_incs_num wd mn n r = Ok (vs, r') -> dec_incs_num wd mn n (r ++ t) = Ok (vs, r' ++ t).
+Proof.
+  induction n as [|n IH]; intros r vs r'; cbn [dec_incs_num].
+  - intros H; injection H as <- <-. reflexivity.
+  - destruct (read_uint_or_none (Z.of_N wd) r) as [[d r1]|e] eqn:E; cbn [bind]; [|discriminate].
+    rewrite (read_uon_suffix _ _ _ _ t E). cbn [bind].
+    destruct (dec_incs_num wd mn n r1) as [[vs1 r2]|e] eqn:E1; cbn [bind]; [|discriminate].
+    rewrite (IH _ _ _ E1). cbn [bind]. intros H; injection H as <- <-. reflexivity.
+Qed.
+
+Theorem dec_col_num_suffix w n r vs r' t :
+  dec_col_num w n r = Ok (vs, r') -> dec_col_num w n (r ++ t) = Ok (vs, r' ++ t).
+Proof.
+  unfold dec_col_num.
+  destruct (read_uint_or_none w r) as [[mn r1]|e] eqn:E; cbn [bind]; [|discriminate].
+  rewrite (read_uon_suffix _ _ _ _ t E). cbn [bind].
+  destruct (read_uint NBITS_FOR_NBITS_DIFF r1) as [[nd r2]|e] eqn:E6; cbn [bind]; [|discriminate].
+  rewrite (read_uint_suffix _ _ _ _ t E6). cbn [bind].
+  destruct mn as [m|]; destruct (nd =? 0)%N; try discriminate;
+    try (intros H; injection H as <- <-; reflexivity).
+  apply dec_incs_num_suffix.
+Qed.
+
+Lemma dec_incs_codeflag_suffix wd dn mn t : forall n r vs r',
+  dec_incs_codeflag wd dn mn n r = Ok (vs, r') -> dec_incs_codeflag wd dn mn n (r ++ t) = Ok (vs, r' ++ t).
+Proof.
+  induction n as [|n IH]; intros r vs r'; cbn [dec_incs_codeflag].
+  - intros H; injection H as <- <-. reflexivity.
+  - destruct (read_uint_or_none (Z.of_N wd) r) as [[d r1]|e] eqn:E; cbn [bind]; [|discriminate].
+    rewrite (read_uon_suffix _ _ _ _ t E). cbn [bind].
+    destruct (match onebit_rule wd d with
+              | Some x => codeflag_recheck dn (mn + x)
+              | None => Ok None
+              end) as [v|e]; cbn [bind]; [|discriminate].
+    destruct (dec_incs_codeflag wd dn mn n r1) as [[vs1 r2]|e] eqn:E1; cbn [bind]; [|discriminate].
+    rewrite (IH _ _ _ E1). cbn [bind]. intros H; injection H as <- <-. reflexivity.
+Qed.
+
+Theorem dec_col_codeflag_suffix w dn n r vs r' t :
+  dec_col_codeflag w dn n r = Ok (vs, r') -> dec_col_codeflag w dn n (r ++ t) = Ok (vs, r' ++ t).
+Proof.
+  unfold dec_col_codeflag.
+  destruct (read_uint_or_none w r) as [[mn r1]|e] eqn:E; cbn [bind]; [|discriminate].
+  rewrite (read_uon_suffix _ _ _ _ t E). cbn [bind].
+  destruct (read_uint NBITS_FOR_NBITS_DIFF r1) as [[nd r2]|e] eqn:E6; cbn [bind]; [|discriminate].
+  rewrite (read_uint_suffix _ _ _ _ t E6). cbn [bind].
+  destruct (opt_is_none mn || (nd =? 0)%N).
+  - destruct (nd =? 0)%N; [|discriminate]. intros H; injection H as <- <-. reflexivity.
+  - destruct mn as [m|]; [|discriminate]. apply dec_incs_codeflag_suffix.
+Qed.
+
+Lemma dec_incs_str_suffix nd mn t : forall n r vs r',
+  dec_incs_str nd mn n r = Ok (vs, r') -> dec_incs_str nd mn n (r ++ t) = Ok (vs, r' ++ t).
+Proof.
+  induction n as [|n IH]; intros r vs r'; cbn [dec_incs_str].
+  - intros H; injection H as <- <-. reflexivity.
+  - destruct (read_bytes nd r) as [[d r1]|e] eqn:E; cbn [bind]; [|discriminate].
+    rewrite (read_bytes_suffix _ _ _ _ t E). cbn [bind].
+    destruct (dec_incs_str nd mn n r1) as [[vs1 r2]|e] eqn:E1; cbn [bind]; [|discriminate].
+    rewrite (IH _ _ _ E1). cbn [bind]. intros H; injection H as <- <-. reflexivity.
+Qed.
+
+Theorem dec_col_str_suffix nb n r vs r' t :
+  dec_col_str nb n r = Ok (vs, r') -> dec_col_str nb n (r ++ t) = Ok (vs, r' ++ t).
+Proof.
+  unfold dec_col_str.
+  destruct (read_bytes nb r) as [[mn r1]|e] eqn:E; cbn [bind]; [|discriminate].
+  rewrite (read_bytes_suffix _ _ _ _ t E). cbn [bind].
+  destruct (read_uint NBITS_FOR_NBITS_DIFF r1) as [[nd r2]|e] eqn:E6; cbn [bind]; [|discriminate].
+  rewrite (read_uint_suffix _ _ _ _ t E6). cbn [bind].
+  destruct (nd =? 0)%N.
+  - intros H; injection H as <- <-. reflexivity.
+  - apply dec_incs_str_suffix.
+Qed.
+
+(* Outside the property's domain (observation, reproduced on the implementation):
+   the compressed encoder accepts a value that does not fit the element when the
+   column minimum fits — 20 in a 4-bit element travels as minimum 3 plus a 5-bit
+   increment and is decoded as 20 — while the uncompressed encoder refuses it. *)
+Example out_of_range_value_accepted_compressed :
+  (let* o := enc_col_num 4 false [Some 3; Some 20]%Z [] in dec_col_num 4 2 o) = Ok ([Some 3; Some 20]%N, []) /\
+  enc_fields_num 4 [Some 3; Some 20]%Z [] = Err EValue.
+Proof. split; vm_compute; reflexivity. Qed.
